@@ -68,7 +68,9 @@ private def tokenize (fuel : Nat) : List Char → List Tok → Option (List Tok)
       else if c == '(' then tokenize fuel rest (Tok.lp :: acc)
       else if c == ')' then tokenize fuel rest (Tok.rp :: acc)
       else if c == '"' then
-        match readQuoted (rest.length + 1) rest [] with
+        -- the outer fuel is ≥ the number of characters left (every token consumes at least one), so it
+        -- also bounds the quoted body; recomputing `rest.length` here would make a line quadratic
+        match readQuoted (fuel + 1) rest [] with
         | some (s, rest') => tokenize fuel rest' (Tok.at s :: acc)
         | none => none
       else
